@@ -52,7 +52,7 @@ TEMPLATES = [
     ('/n/{num:int}', 'echo'), ('/u/{uid:uuid}', 'echo'), ('/files/{p:path}', 'echo'),
     ('/x/{a}-{b}', 'echo'), ('/x/{a}/y/{b:int(min=1)}', 'echo'), ('/long/literal/path', 'echo'),
     ('/e/{code:int}', 'error'), ('/ea/{code:int}', 'errorA'), ('/eb/{code:int}', 'errorB'), ('/m/{k}', 'media'), ('/items/{id}/detail/{d}', 'echo'),
-    ('/v{ver:int}/r', 'echo'),
+    ('/v{ver:int}/r', 'echo'), ('/d/{when:dt("%Y-%m-%d")}', 'echo'), ('/f/{x:float}', 'echo'),
 ]
 
 UUIDS = ['11111111-1111-1111-1111-111111111111', '22222222-2222-2222-2222-222222222222',
@@ -67,6 +67,8 @@ def path_for(tpl, k):
         '{uid:uuid}': UUIDS[k % 3], '{p:path}': 'd%d/f%d.txt' % (k, k), '{a}-{b}': 'l%d-r%d' % (k, k),
         '{a}': 'aa%d' % k, '{b:int(min=1)}': str(5 + k), '{code:int}': str([400, 404, 409][k % 3]),
         '{k}': 'key%d' % k, '{d}': 'det%d' % k, '{ver:int}': str(1 + k),
+        '{when:dt("%Y-%m-%d")}': ['2020-01-02', 'not-a-date', '2021-13-45'][k % 3],
+        '{x:float}': ['1.5', 'nan-ish', '2e3'][k % 3],
     }
     for a, b in rep.items():
         t = t.replace(a, b)
@@ -84,12 +86,32 @@ def gen_plan(ch):
     n_mw = ch.draw(3, 'n_mw')
     n_req = 2 + ch.draw(2, 'n_req')
     reqs = []
+    conv_routes = [i for i in routes if ':' in TEMPLATES[i][0]]
+    same_route = None
+    if conv_routes and ch.draw(5, 'same_route_scenario') == 4:
+        # every request hits one converter-carrying route, with few distinct (possibly
+        # malformed, possibly repeated) field values: converters must not remember anything
+        same_route = conv_routes[ch.draw(len(conv_routes), 'which_route')]
+        n_req = 3
     for k in range(n_req):
+        if same_route is not None:
+            tpl, kind = TEMPLATES[same_route]
+            v = ch.draw(3, 'variant')
+            reqs.append({'route': same_route, 'path': path_for(tpl, v), 'method': 'GET', 'tag': 'tag%d' % k,
+                         'accept': ACCEPTS[0], 'query': 'q=%d&who=r%d' % (v, v), 'body': None})
+            continue
+        if reqs and ch.draw(5, 'repeat_earlier') == 4:
+            # the same request again (only its tag differs): history must not matter
+            dup = dict(reqs[ch.draw(len(reqs), 'which')])
+            dup['tag'] = 'tag%d' % k
+            reqs.append(dup)
+            continue
         r = routes[ch.draw(len(routes), 'req_route')]
         miss = ch.draw(10, 'miss') == 9
         method = 'POST' if ch.draw(3, 'method') == 2 else 'GET'
         tpl, kind = TEMPLATES[r]
-        path = path_for(tpl, k) if not miss else '/nope/%d' % k
+        path = path_for(tpl, ch.draw(3, 'path_variant') if ('dt(' in tpl or 'float' in tpl) else k) \
+            if not miss else '/nope/%d' % k
         body = None
         if method == 'POST':
             body = json.dumps({'req': k, 'pad': 'x' * ch.draw(20, 'pad')}).encode()
